@@ -75,6 +75,12 @@ thread_local! {
 }
 /// Requests above this size are refused (null), after naming the current case.
 pub const ALLOC_HARD_CAP: usize = 1 << 30;
+static CAP: AtomicUsize = AtomicUsize::new(ALLOC_HARD_CAP);
+
+/// Change the refusal threshold (a workload that deliberately needs one huge buffer).
+pub fn set_alloc_cap(n: usize) {
+    CAP.store(n, Relaxed)
+}
 
 #[inline]
 fn on() -> bool {
@@ -144,7 +150,7 @@ extern "C" {
 
 unsafe impl GlobalAlloc for CountingAlloc {
     unsafe fn alloc(&self, l: Layout) -> *mut u8 {
-        if l.size() > ALLOC_HARD_CAP {
+        if l.size() > CAP.load(Relaxed) {
             refuse(l.size());
             return std::ptr::null_mut();
         }
@@ -155,7 +161,7 @@ unsafe impl GlobalAlloc for CountingAlloc {
         p
     }
     unsafe fn alloc_zeroed(&self, l: Layout) -> *mut u8 {
-        if l.size() > ALLOC_HARD_CAP {
+        if l.size() > CAP.load(Relaxed) {
             refuse(l.size());
             return std::ptr::null_mut();
         }
@@ -170,7 +176,7 @@ unsafe impl GlobalAlloc for CountingAlloc {
         System.dealloc(p, l)
     }
     unsafe fn realloc(&self, p: *mut u8, l: Layout, new: usize) -> *mut u8 {
-        if new > ALLOC_HARD_CAP {
+        if new > CAP.load(Relaxed) {
             refuse(new);
             return std::ptr::null_mut();
         }
